@@ -44,7 +44,6 @@ func TestC05(t *testing.T) {
 	r.Finish(t)
 }
 
-
 // concurrentNonces: many goroutines encrypt through sessions of one factory at once (real goroutines, no bubble);
 // the AEAD monitor keeps the set of (key, nonce) pairs and of nonces: a nonce source that is not safe for concurrent
 // use shows up as repeats.
